@@ -199,6 +199,12 @@ static void apply_op(State& st, uint64_t acc, uint64_t a, uint64_t b, size_t opi
   auto ctxt = [&]() { return cat(" [op #", opidx, " ", name, " a=", a, " b=", b, " n=", n, " cursor=", c, descend ? " (the history continues in the returned reader)" : "", st.depth ? cat(" sub-reader depth ", st.depth, " window start ", st.win) : std::string(), "]"); };
 
   auto must_throw = [&](Outcome o, uint64_t off, uint64_t size) {
+    if (size == 0 && o == RETURNED) {
+      // an access of zero bytes that starts beyond the end touches no byte at all: "returns bytes lying entirely inside the buffer"
+      // holds vacuously, so returning (nothing) is as good as throwing - counted, not judged
+      ctx().cls("zero-size access beyond the end: returned instead of throwing");
+      return;
+    }
     VCHECK(o == THREW_OOR, accept_sig(off, size, name), name, " accepted offset ", off, " size ", size, " on ", n, " bytes", ctxt());
   };
   auto must_return = [&](Outcome o, uint64_t off, uint64_t size) {
@@ -477,7 +483,7 @@ static void apply_op(State& st, uint64_t acc, uint64_t a, uint64_t b, size_t opi
           VCHECK(ret == match, cat(!in ? accept_sig(c, size, name) : "result:skip_if"), "skip_if returned ", ret, " expected ", match, ctxt());
           if (match) exp_cur = c + size;
         } else {
-          VCHECK(o == THREW_OOR || !ret, accept_sig(c, size, name), "skip_if matched with the cursor beyond the end", ctxt());
+          VCHECK(o == THREW_OOR || !ret || size == 0, accept_sig(c, size, name), "skip_if matched with the cursor beyond the end", ctxt());
         }
         break;
       }
